@@ -45,6 +45,8 @@ def configs(tier, seed):
         out.append(('sampling/2d/%s' % conv, dict(kind='sampling', conv=conv)))
     out.append(('sampling/2d/complex', dict(kind='sampling', conv='vectorized', dtype='complex128')))
     out.append(('sampling/1d/vectorized', dict(kind='sampling', conv='vectorized', nd=1)))
+    out.append(('sampling/1d/coordinate-itself', dict(kind='sampling', conv='coordinate-itself', nd=1)))
+    out.append(('sampling/2d/coordinate-itself', dict(kind='sampling', conv='coordinate-itself')))
     out.append(('sampling/1d/vectorize-decorator', dict(kind='sampling', conv='vectorize-decorator', nd=1)))
     for scheme in ('nearest', 'linear'):
         out.append(('interp/1d/%s' % scheme, dict(kind='interp1', scheme=scheme)))
@@ -217,6 +219,10 @@ def case(ctx, kind, conv=None, dtype='float64', nd=2, scheme=None, cv=None, ford
             h1 = ctx.uf('h1', 1)
             ref = [h1(pt[1]) for pt in itertools.product(*coords)]
             func = lambda x: broadcast_apply(h1, x[1])        # noqa: relies on broadcasting along axis 0
+        elif conv == 'coordinate-itself':
+            # the callable returns (a view of) its input: the values are the coordinates
+            ref = [pt[0] for pt in itertools.product(*coords)]
+            func = (lambda x: x[0]) if nd > 1 else (lambda x: x)
         elif conv == 'in-place':
             def func(x, out):
                 out[:] = broadcast_apply(h, *[x[k] for k in range(nd)])
@@ -243,6 +249,10 @@ def case(ctx, kind, conv=None, dtype='float64', nd=2, scheme=None, cv=None, ford
             raise ValueError(conv)
         el = space.element(func)
         ctx.fact('element-in-space', el in space)
+        # the element owns its values: writing into it must not reach the grid of the space
+        ctx.fact('element-does-not-share-memory-with-the-grid',
+                 not any(np.shares_memory(np.asarray(el.asarray()).view(np.ndarray), cvec)
+                         for cvec in space.grid.coord_vectors))
         ctx.eq('values-at-grid-points', el, [v + bump for v in ref] if bump else ref)
         return
     if kind in ('interp1', 'affine1'):
